@@ -245,7 +245,7 @@ theorem run_dev (adj : K → List (K × E)) (acc : K → K → E → Bool) (nval
   obtain ⟨⟨f, st⟩, hd, rfl⟩ := h
   exact dev_of_dfs _ _ _ _ _ _ _ hd
 
-theorem searchPath_some (adj : K → List (K × E)) (acc : K → K → E → Bool) (nval : K → Int) (kind : Kind)
+theorem dfs_searchPath_some (adj : K → List (K × E)) (acc : K → K → E → Bool) (nval : K → Int) (kind : Kind)
     (root : K) (target : Option K) (cycle : Bool) (fuel : Nat) (res : Option (List (Edge K E)))
     (run : Run K E) (h : searchPath adj acc nval kind root target cycle fuel = some (res, run)) :
     runLoop adj acc nval kind root target cycle fuel = some run ∧
@@ -390,7 +390,7 @@ theorem Dfs.path_sound' (adj : K → List (K × E)) (acc : K → K → E → Boo
     (p : List (Edge K E)) (run : Run K E)
     (h : searchPath adj acc nval .dfs root (some t) false fuel = some (some p, run)) :
     IsPath (accAdj adj acc) root t p := by
-  obtain ⟨hr, hres⟩ := searchPath_some _ _ _ _ _ _ _ _ _ _ h
+  obtain ⟨hr, hres⟩ := dfs_searchPath_some _ _ _ _ _ _ _ _ _ _ h
   cases hf : run.found with
   | false => simp [hf] at hres
   | true =>
@@ -403,7 +403,7 @@ theorem Dfs.path_simple' (adj : K → List (K × E)) (acc : K → K → E → Bo
     (p : List (Edge K E)) (run : Run K E)
     (h : searchPath adj acc nval .dfs root (some t) false fuel = some (some p, run)) :
     (pathNodes p).Nodup := by
-  obtain ⟨hr, hres⟩ := searchPath_some _ _ _ _ _ _ _ _ _ _ h
+  obtain ⟨hr, hres⟩ := dfs_searchPath_some _ _ _ _ _ _ _ _ _ _ h
   cases hf : run.found with
   | false => simp [hf] at hres
   | true =>
@@ -414,7 +414,7 @@ theorem Dfs.path_complete' (adj : K → List (K × E)) (acc : K → K → E → 
     (run : Run K E) (hrt : t ≠ root)
     (h : searchPath adj acc nval .dfs root (some t) false fuel = some (none, run)) :
     ¬ Reach (accAdj adj acc) root t := by
-  obtain ⟨hr, hres⟩ := searchPath_some _ _ _ _ _ _ _ _ _ _ h
+  obtain ⟨hr, hres⟩ := dfs_searchPath_some _ _ _ _ _ _ _ _ _ _ h
   cases hf : run.found with
   | true => simp [hf] at hres
   | false =>
@@ -467,52 +467,52 @@ theorem Dfs.search_iff' (adj : K → List (K × E)) (acc : K → K → E → Boo
 /-! ## Fuel: more than the number of nodes suffices -/
 
 /-- how many entries of `nodes` are not visited yet -/
-def unv (nodes vis : List K) : Nat := (nodes.filter (fun x => decide (x ∉ vis))).length
+def dfs_unv (nodes vis : List K) : Nat := (nodes.filter (fun x => decide (x ∉ vis))).length
 
-theorem unv_le (nodes vis : List K) : unv nodes vis ≤ nodes.length := List.length_filter_le _ _
+theorem dfs_unv_le (nodes vis : List K) : dfs_unv nodes vis ≤ nodes.length := List.length_filter_le _ _
 
-theorem unv_cons_in (x : K) (ns vis : List K) (h : x ∈ vis) : unv (x :: ns) vis = unv ns vis := by
-  simp [unv, h]
+theorem dfs_unv_cons_in (x : K) (ns vis : List K) (h : x ∈ vis) : dfs_unv (x :: ns) vis = dfs_unv ns vis := by
+  simp [dfs_unv, h]
 
-theorem unv_cons_out (x : K) (ns vis : List K) (h : x ∉ vis) : unv (x :: ns) vis = unv ns vis + 1 := by
-  simp [unv, h]
+theorem dfs_unv_cons_out (x : K) (ns vis : List K) (h : x ∉ vis) : dfs_unv (x :: ns) vis = dfs_unv ns vis + 1 := by
+  simp [dfs_unv, h]
 
-theorem unv_mono (nodes vis vis' : List K) (h : ∀ x ∈ vis, x ∈ vis') : unv nodes vis' ≤ unv nodes vis := by
+theorem dfs_unv_mono (nodes vis vis' : List K) (h : ∀ x ∈ vis, x ∈ vis') : dfs_unv nodes vis' ≤ dfs_unv nodes vis := by
   induction nodes with
-  | nil => simp [unv]
+  | nil => simp [dfs_unv]
   | cons x ns ih =>
     by_cases hx : x ∈ vis
-    · rw [unv_cons_in x ns vis hx, unv_cons_in x ns vis' (h x hx)]; exact ih
+    · rw [dfs_unv_cons_in x ns vis hx, dfs_unv_cons_in x ns vis' (h x hx)]; exact ih
     · by_cases hx' : x ∈ vis'
-      · rw [unv_cons_out x ns vis hx, unv_cons_in x ns vis' hx']; omega
-      · rw [unv_cons_out x ns vis hx, unv_cons_out x ns vis' hx']; omega
+      · rw [dfs_unv_cons_out x ns vis hx, dfs_unv_cons_in x ns vis' hx']; omega
+      · rw [dfs_unv_cons_out x ns vis hx, dfs_unv_cons_out x ns vis' hx']; omega
 
-theorem unv_lt (nodes vis : List K) (v : K) (hv : v ∈ nodes) (hn : v ∉ vis) :
-    unv nodes (v :: vis) < unv nodes vis := by
+theorem dfs_unv_lt (nodes vis : List K) (v : K) (hv : v ∈ nodes) (hn : v ∉ vis) :
+    dfs_unv nodes (v :: vis) < dfs_unv nodes vis := by
   induction nodes with
   | nil => cases hv
   | cons x ns ih =>
     by_cases hxv : x = v
     · subst hxv
-      have hm := unv_mono ns vis (x :: vis) (fun y hy => List.mem_cons_of_mem _ hy)
-      rw [unv_cons_out x ns vis hn, unv_cons_in x ns (x :: vis) List.mem_cons_self]; omega
+      have hm := dfs_unv_mono ns vis (x :: vis) (fun y hy => List.mem_cons_of_mem _ hy)
+      rw [dfs_unv_cons_out x ns vis hn, dfs_unv_cons_in x ns (x :: vis) List.mem_cons_self]; omega
     · have hv' : v ∈ ns := by
         rcases List.mem_cons.mp hv with h | h
         · exact absurd h.symm hxv
         · exact h
       have ih' := ih hv'
       by_cases hx : x ∈ vis
-      · rw [unv_cons_in x ns vis hx, unv_cons_in x ns (v :: vis) (List.mem_cons_of_mem _ hx)]
+      · rw [dfs_unv_cons_in x ns vis hx, dfs_unv_cons_in x ns (v :: vis) (List.mem_cons_of_mem _ hx)]
         exact ih'
       · have hx2 : x ∉ v :: vis := by
           intro hm; rcases List.mem_cons.mp hm with h | h
           · exact hxv h
           · exact hx h
-        rw [unv_cons_out x ns vis hx, unv_cons_out x ns (v :: vis) hx2]; omega
+        rw [dfs_unv_cons_out x ns vis hx, dfs_unv_cons_out x ns (v :: vis) hx2]; omega
 
 theorem dfs_total (c : Cfg K E) (nodes : List K) (hc : Closed (accAdj c.adj c.acc) nodes)
     (fuel : Nat) (u : K) (l : List (K × E)) (st : TSt K E) (hu : u ∈ nodes)
-    (hl : ∀ p ∈ l, p ∈ c.adj u) (hf : unv nodes st.vis < fuel) :
+    (hl : ∀ p ∈ l, p ∈ c.adj u) (hf : dfs_unv nodes st.vis < fuel) :
     (dfsEdges c fuel u l st).isSome = true := by
   fun_induction dfsEdges c fuel u l st with
   | case1 => rfl
@@ -523,15 +523,15 @@ theorem dfs_total (c : Cfg K E) (nodes : List K) (hc : Closed (accAdj c.adj c.ac
   | case5 fuel u v e rest st st1 ha hv st2 ht hr ih =>
     have hvn : v ∈ nodes :=
       hc u hu (v, e) (List.mem_filter.mpr ⟨hl _ List.mem_cons_self, by simpa using ha⟩)
-    have hlt := unv_lt nodes st.vis v hvn hv
-    have := ih hvn (fun p hp => hp) (by show unv nodes (v :: st.vis) < fuel; omega)
+    have hlt := dfs_unv_lt nodes st.vis v hvn hv
+    have := ih hvn (fun p hp => hp) (by show dfs_unv nodes (v :: st.vis) < fuel; omega)
     rw [hr] at this; cases this
   | case6 => rfl
   | case7 fuel u v e rest st st1 ha hv st2 ht st3 hr ih1 ih2 =>
     have hvn : v ∈ nodes :=
       hc u hu (v, e) (List.mem_filter.mpr ⟨hl _ List.mem_cons_self, by simpa using ha⟩)
-    have hlt := unv_lt nodes st.vis v hvn hv
-    have hm := unv_mono nodes (v :: st.vis) st3.vis (dev_of_dfs _ _ _ _ _ _ _ hr).mono
+    have hlt := dfs_unv_lt nodes st.vis v hvn hv
+    have hm := dfs_unv_mono nodes (v :: st.vis) st3.vis (dev_of_dfs _ _ _ _ _ _ _ hr).mono
     exact ih2 hu (fun p hp => hl p (List.mem_cons_of_mem _ hp)) (by omega)
   | case8 fuel u v e rest st st1 ha ih =>
     exact ih hu (fun p hp => hl p (List.mem_cons_of_mem _ hp)) hf
@@ -542,7 +542,7 @@ theorem Dfs.fuel_enough' (adj : K → List (K × E)) (acc : K → K → E → Bo
     (runLoop adj acc nval .dfs root target cycle fuel).isSome = true := by
   simp only [runLoop, Option.isSome_map]
   exact dfs_total { adj := adj, acc := acc, target := if cycle then some root else target } nodes hc
-    fuel root (adj root) _ hr (fun p hp => hp) (Nat.lt_of_le_of_lt (unv_le _ _) hf)
+    fuel root (adj root) _ hr (fun p hp => hp) (Nat.lt_of_le_of_lt (dfs_unv_le _ _) hf)
 
 /-! ## Filtering is the same as searching the subgraph of accepted edges -/
 
@@ -718,7 +718,7 @@ theorem dtree_reach (A : K → List (K × E)) (r : K) {T : List (Edge K E)} (ht 
         · exact (ih' y hy).2
       exact ⟨hru, .step hru (hs (u, v, e) (by simp))⟩
 
-theorem accAdj_true (adj : K → List (K × E)) : accAdj adj (fun _ _ _ => true) = adj := by
+theorem dfs_accAdj_true (adj : K → List (K × E)) : accAdj adj (fun _ _ _ => true) = adj := by
   funext u; simp [accAdj]
 
 /-- A run that reports failure has shown the callback every edge (accepted or not) of every node that is
@@ -783,7 +783,7 @@ theorem Dfs.trace_perm (adj : K → List (K × E)) (nval : K → Int) (root : K)
       obtain ⟨_, _, _, ht⟩ := (run_dev adj _ nval root none false fuel r h).last hfound
       simp [goal] at ht
   have := Dfs.trace_perm_acc adj (fun _ _ _ => true) nval root none false fuel r h hf
-  rw [accAdj_true] at this
+  rw [dfs_accAdj_true] at this
   exact this
 
 end G
